@@ -184,7 +184,7 @@ def handle (crude : Bool) (line : String) : String :=
   | ["dw", t] => toString (displayWidth (cwOf crude) (parseText t))
   | ["cw", c] => toString (cwOf crude (Char.ofNat (c.toNat?.getD 0)))
   | ["strip", t] => showText (stripAnsi (parseText t))
-  | ["c13blocks", ps] =>
+  | ["c13blocks", hy, ps] =>
     -- paragraphs `B,B,…~tail` joined by `;`, a block is `P/c` (text of the run / code point)
     let paras : List (List Block × Text) := (ps.splitOn ";").map fun p =>
       match p.splitOn "~" with
@@ -198,9 +198,12 @@ def handle (crude : Bool) (line : String) : String :=
     let valid := paras.all fun p => validBB p.1 p.2
     let att := paras.all fun p => attachedB none p.1 p.2
     let nolf := paras.all fun p => !(colOf p.1 p.2).contains (Char.ofNat 10)
+    -- `HyphenOk`: no sequence touches a hyphen, spaces are met in state `normal`
+    let hyok := hy != "1" || paras.all fun p =>
+      noTouchB .normal false (colOf p.1 p.2) && metNormalB (fun c => c == ' ') .normal (colOf p.1 p.2)
     let col := joinWith [Char.ofNat 10] (paras.map fun p => colOf p.1 p.2)
     let vis := joinWith [Char.ofNat 10] (paras.map fun p => visOf p.1)
-    s!"valid={if valid then 1 else 0};attached={if att then 1 else 0};nolf={if nolf then 1 else 0};col={showText col};vis={showText vis}"
+    s!"valid={if valid then 1 else 0};attached={if att then 1 else 0};nolf={if nolf then 1 else 0};hyphenok={if hyok then 1 else 0};col={showText col};vis={showText vis}"
   | ["seqsafe", hy, t] => if seqSafeB (hy == "1") (parseText t) then "1" else "0"
   | ["words", sep, t, opps] =>
     let text := parseText t
